@@ -1,4 +1,51 @@
 T = "GeomV.C03."
+import os, re, subprocess
+
+TIE_MODULE = T + "Ties"
+TIE_THEOREMS = ["C03_tie_signedarea", "C03_tie_op_area", "C03_tie_Centroid_core", "C03_tie_op_Centroid_core",
+                "C03_tie_area", "C03_tie_Polygon_Area", "C03_tie_ringBounds", "C03_tie_MultiPolygon_Area",
+                "C03_tie_MultiPolygon_Centroid_core", "C03_tie_bounds_Area", "C03_tie_bounds_Centroid",
+                "C03_tie_op_length", "C03_tie_LineString_Length", "C03_tie_MultiLineString_Length",
+                "C03_tie_pointSubtract", "C03_tie_dot", "C03_tie_norm", "C03_tie_d",
+                "C03_tie_LineString_Distance", "C03_tie_MultiLineString_Distance", "C03_tie_Buffer"]
+
+
+def pregen(check):
+    """T1: regenerate lean/GeomV/C03/Gen.lean from area.go, op/properties.go, bounds.go, linestring.go,
+    multilinestring.go, simplify.go, point.go of the tree under test (written only when it changed).  If a function
+    left the translatable subset, or the regenerated definitions no longer denote the model's functions (Ties.lean
+    does not build), the tie is reported broken and the Ties module is left out so that the other obligations are
+    still audited."""
+    import vcheck
+    cfg = check.cfg
+
+    def drop(why):
+        cfg["lean_modules"] = [m for m in cfg["lean_modules"] if m != TIE_MODULE]
+        check.broken.append(why)
+    ok, gobin, out = vcheck.go_build("c03", check.rundir)
+    if not ok:
+        return  # reported by the harness build of the main flow
+    p = subprocess.run([gobin, "extract", "--repo", vcheck.REPO], stdout=subprocess.PIPE, stderr=subprocess.PIPE, text=True)
+    if p.returncode not in (0, 3) or not p.stdout.startswith("import"):
+        drop("T1 tie: extractor failed: " + p.stderr.strip()[-300:])
+        return
+    gen = os.path.join(vcheck.LEAN, "GeomV", "C03", "Gen.lean")
+    old = open(gen).read() if os.path.exists(gen) else ""
+    if old != p.stdout:
+        with open(gen + ".tmp%d" % os.getpid(), "w") as f:
+            f.write(p.stdout)
+        os.replace(gen + ".tmp%d" % os.getpid(), gen)
+    if p.returncode == 3:
+        drop("T1 tie: " + p.stderr.strip()[-600:])
+        return
+    with vcheck.Lock("lake"):
+        b = subprocess.run(["lake", "build", TIE_MODULE], cwd=vcheck.LEAN, stdout=subprocess.PIPE, stderr=subprocess.STDOUT, text=True)
+    if b.returncode != 0:
+        errs = re.findall(r"error: .*", b.stdout)[:3]
+        drop("T1 tie broken: the measure code regenerated from the Go source no longer denotes the model (GeomV.C03.Ties does not build): "
+             + " | ".join(errs))
+
+
 CFG = {
     "id": "C03",
     "lean_modules": ["GeomV.C03.Proofs", "GeomV.C03.ProofsScale", "GeomV.C03.ProofsMScale", "GeomV.C03.ProofsTouch", "GeomV.C03.ProofsOrder"],
@@ -36,3 +83,17 @@ CFG = {
             "buffers with 3..720 segments and invalid arguments. distinct = distinct input line; non-trivial = verdict class not '*-skipped'",
     "timeout": {"quick": 900, "thorough": 3000},
 }
+
+# T1 (regenerated definitions + tie lemmas); appended here so that the lists above can be edited independently
+CFG["lean_modules"].append(TIE_MODULE)
+CFG["theorems"] += [T + n for n in TIE_THEOREMS]
+CFG["pregen"] = pregen
+CFG["trusted_base"].append(
+    "T1: harness/cmd/c03/extract.go (go/ast, translation table in its header) regenerates lean/GeomV/C03/Gen.lean from area.go (signedarea, area, Polygon.Area, Polygon.ringBounds, the loop of Polygon.Centroid below its range guard), "
+    "multipolygon.go (Area, the loops of Centroid below its range guard), op/properties.go (area, length, the loop of Centroid on a Polygon below its range guard), bounds.go (Area, Centroid), linestring.go / multilinestring.go (Length, Distance), "
+    "simplify.go (pointSubtract, dot, norm, d), point.go (Buffer) of the tree under test on every run, in a faulting monad (index, index assignment, slice, make, integer %, nil box, panic are partial: GenLib.lean; loops with return/continue keep their control flow); "
+    "Ties.lean proves that each regenerated function returns the model's value (areas, lengths, distances, MultiPolygon/op centroid loops: WITHOUT FAULT for every input; Polygon.Centroid loop, Point.Buffer: fault for fault; area: for the boxes of the rings of p and i < len(p)). "
+    "Recognised statement groups, refused (exit 3, tie broken) when their text changes: the accumulator group `cx /= 6*d; cy /= 6*d; A += w; xA += cx*w; yA += cy*w` / `var A, xA, yA float64` / `return Point{xA/A, yA/A}` = CAcc.add / CAcc.zero / CAcc.finish (float division by zero); "
+    "the range guards at the head of the three centroid functions are cut off by their shape and NOT regenerated (centroidScale, scaled: tied by the correspondence run); "
+    "calls into other files are the models' functions: pointInPolygon = property C02's model of within.go with the boxes the code passes, pointsSimilar, distPointToSegment. "
+    "Not modelled by the translation: slice capacity (taken = length), aliasing (observed by the harness), a nil *Bounds receiver of bounds.go's Area/Centroid, op.Area/op.Length/op.Centroid's type switches")
